@@ -3,15 +3,15 @@ from pv import common, gen, lsrun
 
 PID = "C03"
 RULE = ("seeded DCOPs (2-6 vars, domains 2-4, binary and ternary constraints, unary constraints, variable costs, "
-        "min and max, palettes ties/distinct/float/neg) run with mgm (break_mode lexic/random) and mgm2 "
+        "min and max, palettes ties/distinct/float/neg/bigbase (1e12 + 0..9); a quarter are tie-rich 3-4 variable trees with costs in {0,1,2} run with mgm2) run with mgm (break_mode lexic/random) and mgm2 "
         "(threshold 0.2/0.5/0.9, favor unilateral/no/coordinated), stop_cycle 3..12, several random FIFO "
         "schedules each; monitor compares logical per-component cycle cuts A_k / A_k+1 (cost incl. variable "
         "costs, movers sharing a constraint); non-trivial = >=1 value change after the initial selection and "
         ">=3 completed cycles; distinct by hash(instance, algo params, schedule)")
 
 
-def make_run(rng, seed, i, s, tier):
-    algo = rng.choice(["mgm", "mgm2"])
+def make_run(rng, seed, i, s, tier, tie_rich=False):
+    algo = rng.choice(["mgm", "mgm2"]) if not tie_rich else "mgm2"
     if algo == "mgm":
         params = {"stop_cycle": rng.randint(3, 12), "break_mode": rng.choice(["lexic", "random"])}
     else:
@@ -21,8 +21,15 @@ def make_run(rng, seed, i, s, tier):
 
 
 def make_case(rng, tier):
+    if rng.random() < 0.25:
+        # tie-rich tiny instances: exact ties between the gain of a coordinated move and of a neighbour's move, all
+        # name orders between the partners and the neighbour
+        case = gen.gen_case(rng, min_vars=3, max_vars=4, max_dom=2, palettes=("bin",), max_space=2000, initial=True, var_costs=False,
+                            nary=False, unary=False, shapes=("chain", "star", "tree"))
+        case["tie_rich"] = True
+        return case
     return gen.gen_case(rng, min_vars=2, max_vars=6, max_dom=4 if rng.random() < 0.3 else 3,
-                        palettes=("ties", "distinct", "float", "neg"), max_space=2000, initial=True,
+                        palettes=("ties", "distinct", "float", "neg", "bigbase"), max_space=2000, initial=True,
                         shapes=("chain", "star", "tree", "cycle", "clique", "random", "components", "isolated"))
 
 
@@ -152,7 +159,7 @@ def worker(job):
         case = make_case(rng, tier)
         csig = gen.case_sig(case)
         for s in range(job["nsched"]):
-            algo, params = make_run(rng, seed, i, s, tier)
+            algo, params = make_run(rng, seed, i, s, tier, tie_rich=bool(case.get("tie_rich")))
             sseed = (seed * 1000003 + i * 101 + s) & 0x7FFFFFFF
             run, p3, p4, stats, harness = run_case(case, algo, params, sseed)
             pool = run["pool"]
